@@ -18,8 +18,8 @@ pub fn check() -> Check {
 
 fn plan(tier: Tier) -> Vec<Workload> {
     vec![
-        Workload::new("histories", tier.pick(20_000, 500_000)),
-        Workload::new("histories_ship", tier.pick(8_000, 150_000)).ship(),
+        Workload::new("histories", tier.pick(100_000, 2_000_000)),
+        Workload::new("histories_ship", tier.pick(30_000, 600_000)).ship(),
     ]
 }
 
